@@ -226,7 +226,9 @@ func (p *parser) parseIndexOrSliceExpr(left Node, allowSlice bool) Node {
 	if leftType == STRING {
 		t = STRING_TYPE
 	}
-	return &IndexExpression{token: tok, Left: left, Index: index, T: t}
+	// an element is not a literal: untyped empties default to any and the
+	// type cannot be coerced to another composite type
+	return &IndexExpression{token: tok, Left: left, Index: index, T: fixedType(t.infer())}
 }
 
 func (p *parser) validateIndex(tok *lexer.Token, leftType TypeName, indexType *Type) bool {
@@ -295,7 +297,7 @@ func (p *parser) parseDotExpr(left Node) Node {
 		p.appendErrorForToken(`expected map key, found `+p.cur.TokenType().String(), tok)
 		return nil
 	}
-	expr := &DotExpression{token: tok, Left: left, T: left.Type().Sub, Key: key.Literal}
+	expr := &DotExpression{token: tok, Left: left, T: fixedType(left.Type().Sub.infer()), Key: key.Literal}
 	p.advance() // advance past key IDENT
 	return expr
 }
@@ -331,7 +333,7 @@ func (p *parser) parseTypeAssertion(left Node) Node {
 	if t == nil {
 		return nil // invalid type reported above; a node without type must not escape
 	}
-	return &TypeAssertion{T: t, token: tok, Left: left}
+	return &TypeAssertion{T: fixedType(t), token: tok, Left: left}
 }
 
 func isBinaryOp(tt lexer.TokenType) bool {
